@@ -6,7 +6,7 @@ if [ "${1:-}" = "--clean" ]; then git -C /repo worktree remove --force ${SB:-/tm
 patch=$1; shift
 mkdir -p ${SB:-/tmp/sb}
 [ -d ${SB:-/tmp/sb}/repo ] || git -C /repo worktree add --detach ${SB:-/tmp/sb}/repo HEAD >/dev/null 2>&1 || { echo "cannot create worktree"; exit 2; }
-git -C ${SB:-/tmp/sb}/repo checkout -q --detach $(git -C /repo rev-parse HEAD) 2>/dev/null; git -C ${SB:-/tmp/sb}/repo checkout -- .
+git -C ${SB:-/tmp/sb}/repo checkout -q --detach $(git -C /repo rev-parse HEAD) 2>/dev/null; git -C ${SB:-/tmp/sb}/repo checkout -- .; git -C ${SB:-/tmp/sb}/repo clean -fdq src shred-derive
 rsync -a --delete --exclude .build --exclude target --exclude replays --exclude .git --exclude evidence /verif/ ${SB:-/tmp/sb}/verif/
 mkdir -p ${SB:-/tmp/sb}/verif/evidence
 sed -i "s|path = \"/repo\"|path = \"${SB:-/tmp/sb}/repo\"|" ${SB:-/tmp/sb}/verif/harness/Cargo.toml ${SB:-/tmp/sb}/verif/harness_sd/Cargo.toml
@@ -18,4 +18,4 @@ for p in "$@"; do
   echo "=== $p"
   timeout 1700 python3 tools/check.py $p --tier quick 2>/dev/null | grep -E "VIOLATION|KNOWN|PASS|FAIL" | cut -c1-300
 done
-git -C ${SB:-/tmp/sb}/repo checkout -- .
+git -C ${SB:-/tmp/sb}/repo checkout -- .; git -C ${SB:-/tmp/sb}/repo clean -fdq src shred-derive
